@@ -18,6 +18,7 @@ META = {
     "assumptions": ["&mut uniqueness (borrow checker) makes a write through the handle local to the addressed node"],
     "not_decided": ["frame condition inside serde_json::Value::pointer_mut"],
 }
+META["explanation"] += " R1 also: an untranslatable path yields None (the lookup's argument is the converter's Ok payload, never a default). R6 every RFC 9535 Normalized Path (indices within I-JSON) is accepted by the parser: language inclusion on the automata of the grammar analysis."
 
 QT = "crate::query::queryable::Queryable"
 VAL = "serde_json::value::Value"
